@@ -268,6 +268,9 @@ func (m *ModuleInstance) buildTables(module *Module, skipBoundCheck bool) (err e
 	if !skipBoundCheck {
 		for elemI := range module.ElementSection { // Do not loop over the value since elementSegments is a slice of value.
 			elem := &module.ElementSection[elemI]
+			if !elem.IsActive() {
+				continue // only active segments are written to a table at instantiation.
+			}
 			table := m.Tables[elem.TableIndex]
 			var offset uint32
 			if elem.OffsetExpr.Opcode == OpcodeGlobalGet {
